@@ -36,11 +36,11 @@ CHECKS = {
         ref="DESIGN.md section 5 C13"),
     "C14": dict(
         technique="Coq proof (prelude program evaluated against an arbitrary probe-answer function: abort with no mutation on any over-long file; exactly the shorter files extended to the declared length; no mutation without the flag) + pre-flight oracle + prelude trace validation",
-        text="C14_overlong_aborts_before_any_change (any position), C14_extends_exactly_the_shorter_files, C14_no_flag_no_prelude_change, open modes from Generated.v; tied to fix_export_file_lengths by runs over random per-file export states with the flag on and off.",
+        text="C14_extended_file_counts_as_source: after the pre-flight's SetLen a short export file is present (AvailProofs) at its own export location, so C02_present_means_recovered applies to it. C14_overlong_aborts_before_any_change (any position), C14_extends_exactly_the_shorter_files, C14_no_flag_no_prelude_change, open modes from Generated.v; tied to fix_export_file_lengths by runs over random per-file export states with the flag on and off.",
         ref="DESIGN.md section 5 C14", note="A directory sitting at an export path is outside the modelled fragment."),
     "C15": dict(
         technique="Coq proof (rely/guarantee proof that Success implies every segment in place in the fault-free system; counter arithmetic; one line per piece; success only through good traces) + stdout progress-line oracle on real and scheduled runs + trace validation",
-        text="C15_success_means_in_place / C15_in_place_forever (EstablishProofs.v, rely-guarantee): in every fault-free run of the whole system, under every interleaving, when the evaluation of a piece returns Success every non-padding segment of the piece is held by its export file - written by this evaluation or found there - and stays so in every later state (faults and crashes included). C15_counters_sum, C15_one_line_per_piece, C15_success_only_via_good_trace; the progress lines of each real run are parsed and compared with the piece count of the distinct torrents, the per-piece outcomes and the export tree afterwards (duplicate / permuted torrent lists included).",
+        text="C15_available_piece_counted_succeeded: in every complete fault-free run the evaluation of a piece whose data is present has returned Success (what the counters count as succeeded) and the piece is in place; the validator replays the printed progress lines through the extracted count/progress. C15_success_means_in_place / C15_in_place_forever (EstablishProofs.v, rely-guarantee): in every fault-free run of the whole system, under every interleaving, when the evaluation of a piece returns Success every non-padding segment of the piece is held by its export file - written by this evaluation or found there - and stays so in every later state (faults and crashes included). C15_counters_sum, C15_one_line_per_piece, C15_success_only_via_good_trace; the progress lines of each real run are parsed and compared with the piece count of the distinct torrents, the per-piece outcomes and the export tree afterwards (duplicate / permuted torrent lists included).",
         ref="DESIGN.md section 5 C15", note="'Every piece evaluated exactly once' is C05; 'available => succeeded' relies on C02 (checked by oracle here). Known finding K3 (duplicate file paths in one torrent: succeeded pieces that do not verify) is listed in known_findings.json."),
     "C16": dict(
         technique="Coq proof (bad path in any position => Fault with no mutating op; no piece program panics; loader total) + child-process runs (bad paths, no/unloadable torrents, degenerate torrents, CLI binary)",
@@ -76,7 +76,7 @@ CHECKS = {
         ref="DESIGN.md section 5 C10"),
     "C17": dict(
         technique="Coq proof (sorted+deduplicated torrent list depends only on the set of torrents; candidate lists represent exactly the registered inodes with the export file first for every hash-map order; exhaustive search monotone in candidates) + runs under five presentations of each world",
-        text="C17_distinct_torrents, C17_torrent_list_presentation, C17_candidates_order_independent, C17_export_first_for_every_order, C17_more_candidates_monotone; each generated world is run as generated, permuted, with duplicates, with nested scan directories and with the export directory among the scan directories; guarantees checked on each, trees compared, every run replayed against the model.",
+        text="C17_scan_list_permuted / _repeated / _nested / _added: the scan list enters the completeness theorems only through under_of (extracted; used by the validator), which is invariant under permutation, repetition and nesting and monotone under addition; C17_presence_monotone: more files, more scan directories, more torrents keep a present segment present. C17_distinct_torrents, C17_torrent_list_presentation, C17_candidates_order_independent, C17_export_first_for_every_order, C17_more_candidates_monotone; each generated world is run as generated, permuted, with duplicates, with nested scan directories and with the export directory among the scan directories; guarantees checked on each, trees compared, every run replayed against the model.",
         ref="DESIGN.md section 5 C17", note="Identical trees are demanded when no content is shared between torrents (otherwise the order of evaluation legitimately matters)."),
 }
 
